@@ -69,15 +69,18 @@ def _vu_cell(v, u):
     return True
 
 
-def _vu_cells(nv, nu, split_v_from=None, split_u_from=None):
+def _vu_cells(nv, nu, split_v_from=None, extra=()):
+    """disjoint cover of {(v, u): len(v) <= nv, 1 <= len(u) <= nu} plus the (len v, len u) pairs in `extra`;
+    cells with len(v) >= split_v_from are split by the class of v[0]"""
+    pairs = [(lv, lu) for lv in range(0, nv + 1) for lu in range(1, nu + 1)]
+    pairs += [p for p in extra if p not in pairs]
     out = []
-    for lv in range(0, nv + 1):
-        for lu in range(1, nu + 1):
-            vs = [{"VP_CV": i} for i in range(NVC)] if (split_v_from is not None and lv >= max(1, split_v_from)) else [{}]
-            us = [{"VP_CU": i} for i in range(NUC)] if (split_u_from is not None and lu >= max(1, split_u_from)) else [{}]
-            for a in vs:
-                for b in us:
-                    out.append(dict({"VP_LV": lv, "VP_LU": lu}, **dict(a, **b)))
+    for lv, lu in pairs:
+        if split_v_from is not None and lv >= max(1, split_v_from):
+            for i in range(NVC):
+                out.append({"VP_LV": lv, "VP_LU": lu, "VP_CV": i})
+        else:
+            out.append({"VP_LV": lv, "VP_LU": lu})
     return out
 
 
@@ -183,7 +186,7 @@ def _agree(tag, hv, table, cls, a, b):
 
 def value_unit_agree(v: str, u: str) -> bool:
     """
-    pre: len(v) <= R.N(3) and 1 <= len(u) <= R.M(3)
+    pre: len(v) <= 4 and 1 <= len(u) <= 8
     pre: _vu_cell(v, u)
     pre: R.ascii_printable(v) and R.ascii_printable(u)
     pre: " " not in u and "/" not in v and "/" not in u
@@ -199,7 +202,7 @@ def value_unit_agree(v: str, u: str) -> bool:
 
 def prefix_unit_agree(a: str, b: str) -> bool:
     """
-    pre: len(a) <= R.N(3) and 1 <= len(b) <= R.M(3)
+    pre: len(a) <= 4 and 1 <= len(b) <= 8
     pre: _vu_cell(a, b)
     pre: R.ascii_printable(a) and R.ascii_printable(b)
     pre: " " not in b and "/" not in a and "/" not in b
@@ -262,10 +265,10 @@ HARNESSES = [
                      bound="C/3 <u>, every blank-free printable-ASCII unit text u with 1 <= len(u) <= 4"),
         what="", oracle="models/units_ref.py"),
     R.H("value_unit_agree", _TT,
-        quick=R.tier(cells=_vu_cells(2, 2), env={"VP_N": 2, "VP_M": 2}, timeout=300, bound=""),
+        quick=R.tier(cells=_vu_cells(2, 2, split_v_from=2), timeout=300, bound=""),
         what="", oracle="models/units_ref.py"),
     R.H("prefix_unit_agree", _TT,
-        quick=R.tier(cells=_vu_cells(2, 2), env={"VP_N": 2, "VP_M": 2}, timeout=300, bound=""),
+        quick=R.tier(cells=_vu_cells(2, 2, split_v_from=2, extra=[(1, 4), (1, 6)]), timeout=300, bound=""),
         what="", oracle="models/units_ref.py"),
     R.H("numeric_pattern", ["hed.validator.util.char_util.CharRexValidator.is_valid_value"],
         quick=R.tier(cells=R.str_cells(4, nclass=NVC), env={"VP_N": 4}, timeout=300, bound=""),
